@@ -299,11 +299,18 @@ theorem resolveBlocked_nnv (res : Res) (l : Life) (hres : ∀ v, res ≠ Res.val
     NoNewValues l (resolveBlocked res l) := by
   refine ⟨rfl, ?_⟩
   intro s v hm
-  simp only [resolveBlocked, List.mem_append, List.mem_map] at hm
-  rcases hm with hm | ⟨t, _, ht⟩
+  simp only [resolveBlocked, List.mem_append] at hm
+  rcases hm with hm | hm
   · exact hm
-  · simp only [Prod.mk.injEq] at ht
-    exact absurd ht.2 (hres v)
+  · exfalso
+    cases hb : l.blocked with
+    | nil => rw [hb] at hm; simp [releaseAll] at hm
+    | cons t rest =>
+      rw [hb] at hm
+      simp only [releaseAll, List.mem_cons, List.mem_map, Prod.mk.injEq] at hm
+      rcases hm with ⟨_, h2⟩ | ⟨u, _, _, h2⟩
+      · exact hres v h2.symm
+      · cases h2
 
 theorem resolveOne_nnv (t : Nat) (res : Res) (l : Life) (hres : ∀ v, res ≠ Res.value v) :
     NoNewValues l (resolveOne t res l) := by
@@ -457,16 +464,30 @@ theorem Reach.inv {l : Life} (h : Reach l) : Inv l := by
 
 /-! ### nobody stays blocked -/
 
-/-- every waiter that was blocked has been released with `res`, and nobody is blocked any more -/
+/-- every waiter that was blocked has been released — the innermost with `res`, the enclosing ones with `res` or
+EOFError — and nobody is blocked any more -/
 def Released (res : Res) (l l' : Life) : Prop :=
-  l'.blocked = [] ∧ ∀ s, s ∈ l.blocked → (s, res) ∈ l'.outcomes ∧ s ∉ l'.pending
+  l'.blocked = [] ∧ ∀ s, s ∈ l.blocked → ((s, res) ∈ l'.outcomes ∨ (s, Res.eof) ∈ l'.outcomes) ∧ s ∉ l'.pending
+
+theorem mem_releaseAll (res : Res) (bl : List Nat) (s : Nat) (hs : s ∈ bl) :
+    (s, res) ∈ releaseAll res bl ∨ (s, Res.eof) ∈ releaseAll res bl := by
+  cases bl with
+  | nil => cases hs
+  | cons t rest =>
+    simp only [List.mem_cons] at hs
+    rcases hs with rfl | hs
+    · exact Or.inl (by simp [releaseAll])
+    · refine Or.inr ?_
+      simp only [releaseAll, List.mem_cons, List.mem_map]
+      exact Or.inr ⟨s, hs, rfl⟩
 
 theorem resolveBlocked_released (res : Res) (l : Life) : Released res l (resolveBlocked res l) := by
   refine ⟨rfl, ?_⟩
   intro s hs
   constructor
-  · simp only [resolveBlocked, List.mem_append, List.mem_map]
-    exact Or.inr ⟨s, hs, rfl⟩
+  · rcases mem_releaseAll res l.blocked s hs with h | h
+    · exact Or.inl (by simp only [resolveBlocked, List.mem_append]; exact Or.inr h)
+    · exact Or.inr (by simp only [resolveBlocked, List.mem_append]; exact Or.inr h)
   · simp only [resolveBlocked, List.mem_filter, not_and]
     intro _
     simp [hs]
